@@ -1,4 +1,167 @@
-//! Instrumented payloads (filled in for C04/C05); plain `u8` payloads call nothing here.
+//! Instrumented payload for C04 / C05: every instance has an identity, Clone and Drop keep a
+//! liveness table, and Clone / the view closure contain a scheduling point in the middle so that
+//! "descheduled in the middle of clone()" is a preemption site like any other.
+
+use crate::fl::Pay;
+use multiqueue2::verif_hooks::rt;
+
+pub const MAXINST: usize = 24;
+/// scheduling-point kind of the payload hooks (continues the rt::K_* numbering)
+pub const K_PAYLOAD: u8 = 12;
+
+pub struct Table {
+    pub next: usize,
+    /// instance is alive (created and not yet dropped)
+    pub alive: [bool; MAXINST],
+    pub id_of: [u8; MAXINST],
+    pub created: u32,
+    pub dropped: u32,
+    /// instances currently inside a clone()/view (for "destroyed while read" checks)
+    pub reading: u32,
+    pub overflow: bool,
+}
+
+pub static mut TABLE: Table = Table {
+    next: 0,
+    alive: [false; MAXINST],
+    id_of: [0; MAXINST],
+    created: 0,
+    dropped: 0,
+    reading: 0,
+    overflow: false,
+};
 
 #[inline(always)]
-pub fn on_view(_id: u8) {}
+pub fn tb() -> &'static mut Table {
+    unsafe { &mut *std::ptr::addr_of_mut!(TABLE) }
+}
+
+pub fn reset() {
+    let t = tb();
+    t.next = 0;
+    t.alive = [false; MAXINST];
+    t.id_of = [0; MAXINST];
+    t.created = 0;
+    t.dropped = 0;
+    t.reading = 0;
+    t.overflow = false;
+}
+
+fn new_inst(id: u8) -> usize {
+    let t = tb();
+    let i = t.next;
+    if i >= MAXINST {
+        t.overflow = true;
+        kani::assume(false);
+    }
+    t.next = i + 1;
+    t.alive[i] = true;
+    t.id_of[i] = id;
+    t.created += 1;
+    i
+}
+
+/// Payload with identity.  `chk` is the complement of `id`: a torn or stale value shows up as a
+/// mismatch.
+pub struct Tok {
+    pub id: u8,
+    pub chk: u8,
+    pub inst: usize,
+}
+
+// The broadcast uni receiver needs T: Sync; Tok is plain data.
+unsafe impl Sync for Tok {}
+unsafe impl Send for Tok {}
+
+impl Tok {
+    /// (instance is alive, value is complete and is the value that instance was created with)
+    #[inline(always)]
+    fn status(&self) -> (bool, bool) {
+        let t = tb();
+        let i = self.inst;
+        let alive = i < MAXINST && t.alive[i];
+        let intact = self.chk == !self.id && i < MAXINST && t.id_of[i] == self.id;
+        (alive, intact)
+    }
+}
+
+impl Pay for Tok {
+    fn mk(id: u8) -> Tok {
+        Tok {
+            id,
+            chk: !id,
+            inst: new_inst(id),
+        }
+    }
+    #[inline(always)]
+    fn id(&self) -> u8 {
+        self.id
+    }
+    fn view(&self) -> u8 {
+        view_tok(self)
+    }
+}
+
+impl Clone for Tok {
+    fn clone(&self) -> Tok {
+        let (alive, intact) = self.status();
+        assert!(alive, "C04: a consumer was handed a value that had already been destroyed");
+        assert!(intact, "C04: a consumer observed an incomplete or foreign value");
+        let (id0, inst0) = (self.id, self.inst);
+        // the clone takes a while: anything may run here
+        rt::point(K_PAYLOAD, self as *const Tok as usize);
+        assert!(
+            self.id == id0 && self.inst == inst0,
+            "C04: a slot was overwritten while a consumer was cloning it"
+        );
+        let (alive, intact) = self.status();
+        assert!(alive, "C04: a value was destroyed while a consumer was cloning it");
+        assert!(intact, "C04: a value changed while a consumer was cloning it");
+        Tok {
+            id: self.id,
+            chk: self.chk,
+            inst: new_inst(self.id),
+        }
+    }
+}
+
+impl Drop for Tok {
+    fn drop(&mut self) {
+        let t = tb();
+        let i = self.inst;
+        assert!(i < MAXINST, "C05: a payload that was never created was dropped");
+        assert!(t.alive[i], "C05: a payload was dropped twice");
+        t.alive[i] = false;
+        t.dropped += 1;
+    }
+}
+
+/// Body of the view closures (`fl::view_hook`): the reference must stay valid across a
+/// scheduling point.  Plain `u8` payloads have no identity, so only the point is taken.
+#[inline(always)]
+pub fn on_view(_id: u8) {
+    rt::point(K_PAYLOAD, 0);
+}
+
+/// View hook for `Tok`.
+pub fn view_tok(p: &Tok) -> u8 {
+    let (alive, intact) = p.status();
+    assert!(alive, "C04: a view closure was handed a value that had already been destroyed");
+    assert!(intact, "C04: a view closure observed an incomplete or foreign value");
+    let (id0, inst0) = (p.id, p.inst);
+    rt::point(K_PAYLOAD, p as *const Tok as usize);
+    assert!(
+        p.id == id0 && p.inst == inst0,
+        "C04: a slot was overwritten while a view closure was reading it"
+    );
+    let (alive, intact) = p.status();
+    assert!(alive, "C04: a value was destroyed while a view closure was reading it");
+    assert!(intact, "C04: a value changed while a view closure was reading it");
+    p.id
+}
+
+/// number of instances alive right now
+pub fn n_alive() -> u32 {
+    let t = tb();
+    t.created - t.dropped
+}
